@@ -18,9 +18,9 @@ var c15MemOps = []OpCode{MLOAD, MSTORE, MSTORE8, SHA3, RETURN, REVERT, CALLDATAC
 // the last bytes below 2^64 and beyond): Run returns a result or an error, it does not panic, and it
 // never hands back more gas than it was given.
 //
-// Quick tier (this harness; MLOAD, MSTORE8, RETURN only): every operand is drawn from one of four families — below 40; within 64
-// of 2^64 from below; 2^64 plus less than 64; within 64 of 2^256 from below — independently per
-// operand. Thorough tier (H-C15-e2): every operand an arbitrary 256-bit value.
+// Quick tier (this harness: MLOAD, MSTORE8, RETURN; H-C15-e3: MCOPY): every operand is drawn from one of five families — below 40;
+// within 64 of 2^64 from below; 2^64 plus less than 64; 2^255 plus less than 64 (negative as a signed word); within 64 of 2^256
+// from below — independently per operand. Thorough tier (H-C15-e2): every operand an arbitrary 256-bit value.
 //
 // verif:bounds decisions=600 split=160 paths=40000
 func VerifH_C15_e() { c15RunMemOp(false) }
@@ -32,12 +32,15 @@ func VerifH_C15_e() { c15RunMemOp(false) }
 func VerifH_C15_e2() { c15RunMemOp(true) }
 
 func c15Operand(tag string, full bool) []byte {
+	if c15Coarse {
+		return c15OperandCoarse(tag)
+	}
 	if full {
 		return vBytes(tag, 32)
 	}
 	b := make([]byte, 32)
 	d := vU8(tag+"Delta") % 64
-	switch vLen(tag+"Family", 3) {
+	switch vLen(tag+"Family", 4) {
 	case 0:
 		vFact(tag, "small")
 		b[31] = vU8(tag+"Lo") % 40
@@ -50,6 +53,9 @@ func c15Operand(tag string, full bool) []byte {
 	case 2:
 		vFact(tag, "just-above-2^64")
 		b[23], b[31] = 1, d
+	case 3:
+		vFact(tag, "just-above-2^255") // negative when read as a signed word
+		b[0], b[31] = 0x80, d
 	default:
 		vFact(tag, "just-below-2^256")
 		for i := range b {
@@ -60,12 +66,47 @@ func c15Operand(tag string, full bool) []byte {
 	return b
 }
 
+// H-C15-e3: as H-C15-e for MCOPY (each of the three operands one of 0, 1, 33, 2^255, 2^255+33, 2^256-1): the region the copy touches is
+// the region the interpreter sized and charged, whichever operand is the larger and however it reads as a
+// signed number.
+//
+// verif:bounds decisions=600 split=160 paths=40000
+func VerifH_C15_e3() { c15Coarse = true; c15RunMemOpOf(false, []OpCode{MCOPY}) }
+
+var c15Coarse bool
+
+// c15OperandCoarse: 0, 1, 33 | 2^255, 2^255+33 | 2^256-1
+func c15OperandCoarse(tag string) []byte {
+	b := make([]byte, 32)
+	switch vLen(tag+"Choice", 5) {
+	case 0:
+	case 1:
+		b[31] = 1
+	case 2:
+		b[31] = 33
+	case 3:
+		b[0] = 0x80
+	case 4:
+		b[0], b[31] = 0x80, 33
+	default:
+		for i := range b {
+			b[i] = 0xff
+		}
+	}
+	return b
+}
+
 func c15RunMemOp(full bool) {
-	InitializePrecompiles(vLoc)
+	c15Coarse = false
 	ops := c15MemOps
 	if !full {
 		ops = []OpCode{MLOAD, MSTORE8, RETURN}
 	}
+	c15RunMemOpOf(full, ops)
+}
+
+func c15RunMemOpOf(full bool, ops []OpCode) {
+	InitializePrecompiles(vLoc)
 	op := ops[vLen("opcode", len(ops)-1)]
 	vFact("opcode", op.String())
 	db := newModelDB()
